@@ -34,6 +34,7 @@ struct Acc {
     uint32_t clk = 0;
     uintptr_t pc = 0;
     bool atomic = false;
+    uint32_t ctx = 0;   // interned call context (index into g_ctx)
 };
 struct Cell {
     Acc w;
@@ -53,10 +54,42 @@ struct Busy {
     ~Busy() { --tl_busy; }
 };
 
+// shadow call stack, maintained by __tsan_func_entry/exit: the call sites (return addresses) of the instrumented
+// frames of this thread. An access made by standard-library code (std::set::find ...) is attributed through it to
+// the function that called into the library.
+const int STACK_MAX = 512, CTX_DEPTH = 8;
+thread_local uintptr_t tl_stack[STACK_MAX];
+thread_local int tl_sp = 0;
+thread_local uint32_t tl_ctx = 0;
+thread_local bool tl_ctx_valid = false;
+struct Ctx {
+    uintptr_t f[CTX_DEPTH];
+    bool operator<(const Ctx &o) const { return memcmp(f, o.f, sizeof f) < 0; }
+};
+std::vector<Ctx> g_ctx;
+std::map<Ctx, uint32_t> g_ctx_index;
+
+uint32_t current_ctx() {
+    if (tl_ctx_valid) return tl_ctx;
+    Ctx c;
+    memset(c.f, 0, sizeof c.f);
+    int n = tl_sp < STACK_MAX ? tl_sp : STACK_MAX;
+    for (int k = 0; k < CTX_DEPTH && k < n; ++k) c.f[k] = tl_stack[n - 1 - k];
+    auto it = g_ctx_index.find(c);
+    if (it == g_ctx_index.end()) {
+        g_ctx.push_back(c);
+        it = g_ctx_index.emplace(c, (uint32_t) g_ctx.size() - 1).first;
+    }
+    tl_ctx = it->second;
+    tl_ctx_valid = true;
+    return tl_ctx;
+}
+
 struct Report {
     uintptr_t addr, pc1, pc2;
     int t1, t2;
     bool w1, w2;
+    uint32_t c1, c2;
 };
 std::vector<Report> g_reports;
 std::set<std::pair<uintptr_t, uintptr_t>> g_seen;
@@ -66,9 +99,12 @@ inline bool live() { return g_on && vs::active() && tl_ignore == 0 && me() >= 0 
 
 void report(uintptr_t addr, const Acc &prev, bool prev_w, int t, uintptr_t pc, bool cur_w) {
     Busy busy;
-    auto key = std::make_pair(std::min(prev.pc, pc), std::max(prev.pc, pc));
+    uint32_t ctx = current_ctx();
+    // one report per pair of (site, call context): the same library routine is reached from many callers
+    auto a = std::make_pair(prev.pc ^ ((uintptr_t) prev.ctx << 48), pc ^ ((uintptr_t) ctx << 48));
+    auto key = std::make_pair(std::min(a.first, a.second), std::max(a.first, a.second));
     if (!g_seen.insert(key).second) return;
-    if (g_reports.size() < 200) g_reports.push_back({addr, prev.pc, pc, prev.tid, t, prev_w, cur_w});
+    if (g_reports.size() < 400) g_reports.push_back({addr, prev.pc, pc, prev.tid, t, prev_w, cur_w, prev.ctx, ctx});
 }
 
 void access(uintptr_t addr, size_t size, bool is_write, uintptr_t pc, bool atomic = false) {
@@ -77,6 +113,7 @@ void access(uintptr_t addr, size_t size, bool is_write, uintptr_t pc, bool atomi
     tl_last_pc = pc;
     int t = me();
     VC &C = g_vc[t];
+    uint32_t ctx = current_ctx();
     for (size_t i = 0; i < size; ++i) {
         Cell &cell = g_shadow[addr + i];
         // previous write vs this access
@@ -85,7 +122,7 @@ void access(uintptr_t addr, size_t size, bool is_write, uintptr_t pc, bool atomi
         if (is_write) {
             for (Acc &r : cell.r)
                 if (r.tid >= 0 && r.tid != t && r.clk > C.c[r.tid] && !(r.atomic && atomic)) report(addr + i, r, false, t, pc, true);
-            cell.w = {t, C.c[t], pc, atomic};
+            cell.w = {t, C.c[t], pc, atomic, ctx};
             for (Acc &r : cell.r) r.tid = -1;
         } else {
             int slot = -1;
@@ -98,7 +135,7 @@ void access(uintptr_t addr, size_t size, bool is_write, uintptr_t pc, bool atomi
                         break;
                     }
             if (slot < 0) slot = 0;
-            cell.r[slot] = {t, C.c[t], pc, atomic};
+            cell.r[slot] = {t, C.c[t], pc, atomic, ctx};
         }
     }
 }
@@ -124,6 +161,10 @@ void rd_enable(int on) {
         rd::g_shadow.clear();
         rd::g_reports.clear();
         rd::g_seen.clear();
+        rd::g_ctx.clear();
+        rd::g_ctx_index.clear();
+        rd::g_ctx.push_back(rd::Ctx{});
+        rd::tl_ctx_valid = false;
         rd::g_vc[0].c[0] = 1;
     }
 }
@@ -177,16 +218,36 @@ int rd_report_count() { return (int) rd::g_reports.size(); }
 int rd_report(int i, char *buf, int n) {
     if (i < 0 || i >= (int) rd::g_reports.size()) return 0;
     auto &r = rd::g_reports[i];
-    return snprintf(buf, n, "\"addr\":\"0x%lx\",\"pc1\":\"0x%lx\",\"t1\":%d,\"w1\":%d,\"pc2\":\"0x%lx\",\"t2\":%d,\"w2\":%d", (unsigned long) r.addr,
-                    (unsigned long) r.pc1, r.t1, r.w1 ? 1 : 0, (unsigned long) r.pc2, r.t2, r.w2 ? 1 : 0);
+    auto stack = [](uint32_t c) {
+        std::string s = "[";
+        if (c < rd::g_ctx.size())
+            for (int k = 0; k < rd::CTX_DEPTH && rd::g_ctx[c].f[k]; ++k) {
+                char b[32];
+                snprintf(b, sizeof b, "%s\"0x%lx\"", k ? "," : "", (unsigned long) rd::g_ctx[c].f[k]);
+                s += b;
+            }
+        return s + "]";
+    };
+    rd::Busy busy;
+    return snprintf(buf, n, "\"addr\":\"0x%lx\",\"pc1\":\"0x%lx\",\"t1\":%d,\"w1\":%d,\"pc2\":\"0x%lx\",\"t2\":%d,\"w2\":%d,\"s1\":%s,\"s2\":%s",
+                    (unsigned long) r.addr, (unsigned long) r.pc1, r.t1, r.w1 ? 1 : 0, (unsigned long) r.pc2, r.t2, r.w2 ? 1 : 0, stack(r.c1).c_str(),
+                    stack(r.c2).c_str());
 }
 void rd_ignore(int delta) { rd::tl_ignore += delta; }
 
 // ---- the tsan ABI the instrumented objects call -----------------------------------------------------
 #define PC ((uintptr_t) __builtin_return_address(0))
 void __tsan_init() {}
-void __tsan_func_entry(void *) { rd::tl_last_pc = PC; }
-void __tsan_func_exit() {}
+void __tsan_func_entry(void *call_pc) {
+    rd::tl_last_pc = PC;
+    if (rd::tl_sp < rd::STACK_MAX) rd::tl_stack[rd::tl_sp] = (uintptr_t) call_pc;
+    ++rd::tl_sp;
+    rd::tl_ctx_valid = false;
+}
+void __tsan_func_exit() {
+    if (rd::tl_sp > 0) --rd::tl_sp;
+    rd::tl_ctx_valid = false;
+}
 void __tsan_read1(void *a) { rd::access((uintptr_t) a, 1, false, PC); }
 void __tsan_read2(void *a) { rd::access((uintptr_t) a, 2, false, PC); }
 void __tsan_read4(void *a) { rd::access((uintptr_t) a, 4, false, PC); }
